@@ -624,6 +624,10 @@ func c18R2(c *Ctx) {
 						refused = true
 					}
 				}
+				if !refused {
+					// the test itself instead of the call: the target is known to be at or beyond a bound
+					refused = e.lc.nonNeg(want.add(up, -1)) || e.lc.nonNeg(lo.add(want, -1))
+				}
 				c.check(okOther && refused, fname+"/stay", P.InstrPos(ret), fname, "the cursor stays because the target is not in the feed ("+where+")",
 					"the cursor stays although the target position is not known to be outside the feed ("+where+")")
 			}
